@@ -1,4 +1,132 @@
 import Tfv.Model
+import Tfv.Props.C10
+import Tfv.Proofs.GraphOrder
+import Tfv.Proofs.GraphExamples
+/-!
+# C19 — the result does not depend on iteration order (the model side)
+
+Python iterates sets in two places that matter for the graph: the loop over the canonical supertypes of a
+node's type in `add_expr` (`Language.supertypes` returns a set) and the work list of `expand_canon`. A graph
+is a set of triples, so what has to be shown is that the *set* of triples — and the node table — does not
+depend on the order in which the triples are emitted. Hash seeds, `id()`-based ordering and memory
+allocation are outside the model: the model is a function (`C19_model_deterministic`), and the order in
+which a Python set is iterated appears in it as the order of a list, which the theorems below quantify over.
+
+`SameBut g g'` (`Tfv/Proofs/GraphAnnotate.lean`): `g'` is `g` with another list of triples, every other
+component (type-node table, blank-node counter, `from`/`depends`, …) is equal.
+`annotateTypeWith … sups` is `annotateType` iterating the list `sups` instead of `supsOf G ty`
+(`annotateType_eq : annotateType … = annotateTypeWith … (supsOf G ty)` by `rfl`).
+-/
 namespace Tfv.C19
-theorem placeholder : True := trivial
+open Tfv Tfv.Tax Tfv.GraphEx
+
+/-- **Emitting two triples in either order gives the same set of triples.** -/
+theorem C19_add_comm (g : GState) (t1 t2 t : Triple) :
+    t ∈ ((g.add t1).add t2).triples ↔ t ∈ ((g.add t2).add t1).triples :=
+  add_comm_mem g t1 t2 t
+
+example : ((({} : GState).add (.b 0, .tf "via", .ns "f")).add (.b 0, .tf "type", .ns "A")).triples
+    ≠ ((({} : GState).add (.b 0, .tf "type", .ns "A")).add (.b 0, .tf "via", .ns "f")).triples := by decide
+
+/-- the set of triples after emitting a list of triples: the old ones and the members of the list -/
+theorem C19_mem_foldl_add (l : List Triple) (g : GState) (t : Triple) :
+    t ∈ (l.foldl GState.add g).triples ↔ (t ∈ g.triples ∨ t ∈ l) :=
+  mem_foldl_add l g t
+
+/-- **Emitting a list of triples in another order** (any permutation) gives the same set of triples … -/
+theorem C19_foldl_add_perm (l1 l2 : List Triple) (h : l1.Perm l2) (g : GState) (t : Triple) :
+    t ∈ (l1.foldl GState.add g).triples ↔ t ∈ (l2.foldl GState.add g).triples :=
+  foldl_add_same l1 l2 (fun _ => h.mem_iff) g t
+
+/-- … and indeed only the *set* of emitted triples matters (repetitions are irrelevant as well); nothing but
+the triple list changes -/
+theorem C19_foldl_add_set (l1 l2 : List Triple) (h : ∀ t, t ∈ l1 ↔ t ∈ l2) (g : GState) :
+    (∀ t, t ∈ (l1.foldl GState.add g).triples ↔ t ∈ (l2.foldl GState.add g).triples) ∧
+      SameBut g (l1.foldl GState.add g) ∧ SameBut g (l2.foldl GState.add g) :=
+  ⟨foldl_add_same l1 l2 h g, foldl_add_sameBut l1 g, foldl_add_sameBut l2 g⟩
+
+example : [((.b 0 : Node), Node.tf "via", Node.ns "f"), (.b 0, .tf "type", .ns "A")].Perm
+    [(.b 0, .tf "type", .ns "A"), (.b 0, .tf "via", .ns "f")] := List.Perm.swap _ _ _
+
+/-- **The supertype loop of `add_expr` is order independent.** If every supertype in the list is registered in
+the type-node table before the call (so that `add_type` is a pure lookup), then iterating any list with the same
+members succeeds as well, yields the same set of triples and leaves every other component of the graph equal
+(in particular the same type-node table). -/
+theorem C19_emission_perm (G : GLang) (c : GCfg) (g : GState) (root : Node) (cur : Nat) (ty : Term)
+    (sups1 sups2 : List Ty) (hp : sups1.Perm sups2)
+    (hreg : ∀ s ∈ sups1, ∃ n, lookupType g.typeNodes s.toTerm = some n) (g1 : GState)
+    (h : annotateTypeWith G c g root cur ty sups1 = .ok g1) :
+    ∃ g2, annotateTypeWith G c g root cur ty sups2 = .ok g2 ∧ SameBut g1 g2 ∧
+      ∀ t, t ∈ g1.triples ↔ t ∈ g2.triples :=
+  annotateTypeWith_perm G c g root cur ty sups1 sups2 (fun _ => hp.mem_iff) hreg g1 h
+
+/-- **… and the proviso holds in the default configuration**: without `with_canonical_types` the canonical
+types are registered by `TransformationGraph.__init__`, every supertype the loop visits is canonical, and the
+table only grows. So in every graph whose type-node table extends the initial one, `annotateType` gives the
+same set of triples (and the same graph otherwise) whatever the order in which Python's set of supertypes is
+iterated. -/
+theorem C19_emission_perm_canonical (G : GLang) (c : GCfg) (hc : c.withCanonicalTypes = false) (g : GState)
+    (l : List (Term × Node)) (hg : g.typeNodes = (initGraph G c).typeNodes ++ l) (root : Node) (cur : Nat)
+    (ty : Term) (mf : Bool) (sups : List Ty) (hp : sups.Perm (supsOf G ty)) (g1 : GState)
+    (h : annotateType G c g root cur ty mf = .ok g1) :
+    ∃ g2, annotateTypeWith G c g root cur ty sups = .ok g2 ∧ SameBut g1 g2 ∧
+      ∀ t, t ∈ g1.triples ↔ t ∈ g2.triples :=
+  annotateType_perm_canonical G c hc g l hg root cur ty mf sups hp g1 h
+
+/-- non-vacuity: a node of type `C` has the supertypes `[B, A]`; iterating `[A, B]` emits the triples in another
+order -/
+example : supsOf exG tmC = [tB, tA] ∧ [tA, tB].Perm (supsOf exG tmC) ∧
+    ((annotateType exG {} (initGraph exG {}) GraphEx.root 0 tmC false).toOption.map (·.triples))
+      = some [(.b 0, .tf "type", .ns "C"), (.b 0, .tf "subtypeOf", .ns "C"),
+        (GraphEx.root, .tf "containsType", .ns "C"),
+        (GraphEx.root, .tf "containsType", .ns "B"), (.b 0, .tf "subtypeOf", .ns "B"),
+        (GraphEx.root, .tf "containsType", .ns "A"), (.b 0, .tf "subtypeOf", .ns "A")] ∧
+    ((annotateTypeWith exG {} (initGraph exG {}) GraphEx.root 0 tmC [tA, tB]).toOption.map (·.triples))
+      = some [(.b 0, .tf "type", .ns "C"), (.b 0, .tf "subtypeOf", .ns "C"),
+        (GraphEx.root, .tf "containsType", .ns "C"),
+        (GraphEx.root, .tf "containsType", .ns "A"), (.b 0, .tf "subtypeOf", .ns "A"),
+        (GraphEx.root, .tf "containsType", .ns "B"), (.b 0, .tf "subtypeOf", .ns "B")] :=
+  ⟨rfl, List.Perm.swap _ _ _, annC_triples, by decide +kernel⟩
+
+/-- **The proviso matters for the node table as a list**: with `with_canonical_types` nothing is pre-registered,
+the supertypes are registered in the order of the loop, and the two orders give different type-node tables
+(here the same entries in another order; the triples are the same set). -/
+theorem C19_registration_order_visible :
+    ((annotateTypeWith exG { withCanonicalTypes := true } (initGraph exG { withCanonicalTypes := true })
+        GraphEx.root 0 tmC [tB, tA]).toOption.map (fun g => g.typeNodes.map (·.2)))
+      = some [.ns "C", .ns "B", .ns "A"] ∧
+    ((annotateTypeWith exG { withCanonicalTypes := true } (initGraph exG { withCanonicalTypes := true })
+        GraphEx.root 0 tmC [tA, tB]).toOption.map (fun g => g.typeNodes.map (·.2)))
+      = some [.ns "C", .ns "A", .ns "B"] :=
+  ⟨by decide +kernel, by decide +kernel⟩
+
+/-- **The canon does not depend on the order in which the work list is processed**: two terminated runs of
+`expand_canon` whose start sets have the same members return sets with the same members. -/
+theorem C19_worklist {L : Lang} {c : CanonCfg} {n1 n2 : Nat} {stack1 canon1 stack2 canon2 : List Ty}
+    (t1 : Terminates L c n1 stack1 canon1) (t2 : Terminates L c n2 stack2 canon2)
+    (i1 : WorkInv L c stack1 canon1) (i2 : WorkInv L c stack2 canon2)
+    (hsame : ∀ t, (t ∈ stack1 ∨ t ∈ canon1) ↔ (t ∈ stack2 ∨ t ∈ canon2)) (t : Ty) :
+    t ∈ expandCanon L c n1 stack1 canon1 ↔ t ∈ expandCanon L c n2 stack2 canon2 :=
+  C10.C10_expandCanon_order_irrelevant t1 t2 i1 i2 hsame t
+
+/-- for `Language.__init__`: the order (and multiplicity) of the listed canonical types is irrelevant -/
+theorem C19_worklist_mkCanon {L : Lang} {c : CanonCfg} {l1 l2 : List Ty}
+    (t1 : Terminates L c canonFuel (initOf l1) (initOf l1))
+    (t2 : Terminates L c canonFuel (initOf l2) (initOf l2))
+    (hsame : ∀ t, t ∈ l1 ↔ t ∈ l2) (t : Ty) : t ∈ mkCanon L c l1 ↔ t ∈ mkCanon L c l2 :=
+  C10.C10_mkCanon_order_irrelevant t1 t2 hsame t
+
+example : Terminates C10Ex.exL C10Ex.cfg0 canonFuel (initOf [C10Ex.tA, C10Ex.tF C10Ex.tA])
+      (initOf [C10Ex.tA, C10Ex.tF C10Ex.tA]) ∧
+    Terminates C10Ex.exL C10Ex.cfg0 canonFuel (initOf [C10Ex.tF C10Ex.tA, C10Ex.tA])
+      (initOf [C10Ex.tF C10Ex.tA, C10Ex.tA]) := ⟨C10Ex.termA, C10Ex.termA'⟩
+
+/-- **The model is a function**: two runs of `addExpr` on equal inputs give equal outputs. Whatever makes two
+Python runs differ (hash seed, allocation addresses used by `id()`, dictionary history) is therefore not an input
+of the model; its only effect on the modelled computation is an iteration order, covered by the theorems above. -/
+theorem C19_model_deterministic (G : GLang) (c : GCfg) (root : Node) (origin : Option Node) (g1 g2 : GState)
+    (e1 e2 : TExpr) (cur : Option Nat) (inter : Bool) (hg : g1 = g2) (he : e1 = e2) :
+    addExpr G c root origin g1 e1 cur inter = addExpr G c root origin g2 e2 cur inter := by
+  rw [hg, he]
+
 end Tfv.C19
